@@ -50,7 +50,7 @@ prop("C07", [
     H("H07_seq", quick={"wall": "140s", "shards": 2, "param": "fixN=3,maxL=2,maxLocs=0,variants=1,allHits=1,allFlags=1"}, thorough={"wall": "1500s", "shards": 16, "param": "fixN=5,maxL=3,maxLocs=0,variants=1,allHits=1,allFlags=1"}),
 ])
 prop("C08", [H("H08_tmp"), H("H08_dict", quick={"wall": "175s", "shards": 16, "param": "provs=6,lite=1"}, thorough={"wall": "1500s", "shards": 16, "param": "provs=6"})])
-prop("C12", [H("K5_synonym"), H("H12_syn", common={"param": "maxSyn=2"}, quick={"wall": "140s", "shards": 16})])
+prop("C12", [H("K5_synonym"), H("H12_syn", quick={"wall": "140s", "shards": 16, "param": "maxSyn=2"}, thorough={"wall": "1500s", "shards": 16, "param": "maxSyn=3"})])
 prop("C13", [H("H13_synmerge", quick={"wall": "140s", "shards": 16, "param": "maxSyn=1,emptyTerm=1,drop1=0,reopen=0"}, thorough={"wall": "1500s", "shards": 16, "param": "maxSyn=2,emptyTerm=1,twoGen=1"})])
 prop("C11", [H("H11_pool", quick={"wall": "100s", "shards": 8}), H("H11_effects", common={"race": True}, quick={"wall": "100s", "shards": 7}), H("H11_syn", common={"race": True})])
 prop("C17", [H("H17_writeTo"), H("H17_persist"),
